@@ -35,3 +35,65 @@ impl Recorder {
 pub fn header_values(r: &HttpRequest, name: http::header::HeaderName) -> Vec<Vec<u8>> {
     r.headers().get_all(name).iter().map(|v| v.as_bytes().to_vec()).collect()
 }
+
+/// names a caller might give an extra parameter that a "helpful" code path could treat specially: protocol parameter
+/// names of every grant, assertion-style client authentication (RFC 7521/7523), resource indicators, common vendor names
+pub const SPECIAL_PARAM_NAMES: &[&str] = &[
+    "client_id", "client_secret", "scope", "redirect_uri", "grant_type", "code", "token", "token_type_hint", "code_verifier",
+    "code_challenge", "code_challenge_method", "state", "response_type", "refresh_token", "username", "password", "device_code",
+    "client_assertion", "client_assertion_type", "assertion", "resource", "audience", "nonce", "prompt", "login_hint",
+    "access_type", "requested_token_type", "subject_token", "actor_token", "Client_Id", "CLIENT_SECRET", "",
+];
+
+/// a redirect URL value obtained in one of the ways a caller can obtain it: the constructor, or serde from a JSON string
+/// (borrowed text) or from a `serde_json::Value` (owned text). The value must carry the caller's text whichever way.
+pub fn make_redirect(text: &str, how: u64) -> oauth2::RedirectUrl {
+    match how % 3 {
+        1 => serde_json::from_str(&serde_json::to_string(text).unwrap()).expect("a valid redirect URL deserialises"),
+        2 => serde_json::from_value(serde_json::Value::String(text.to_string())).expect("a valid redirect URL deserialises"),
+        _ => oauth2::RedirectUrl::new(text.to_string()).unwrap(),
+    }
+}
+
+/// names of unknown / extension members that a lenient `#[serde(alias = ..)]` or a vendor-compat shortcut is likely to
+/// capture: vendor spellings of the standard members, singular/plural and abbreviated variants
+pub const ALIAS_LIKE_MEMBER_NAMES: &[&str] = &[
+    "message", "error_message", "description", "error_code", "code", "msg", "detail", "details", "reason", "status", "hint",
+    "errors", "error_codes", "expires", "expires_at", "expiry", "expiration", "exp", "ttl", "scopes", "scp", "token", "tokens",
+    "id_token", "type", "kind", "tokenType", "accessToken", "refreshToken", "expiresIn", "device", "deviceCode", "userCode",
+    "user", "url", "uri", "verification_url_complete", "verificationUri", "interval_seconds", "poll_interval", "is_active",
+    "isActive", "enabled", "valid", "audience", "subject", "issuer", "client", "clientId", "user_name", "user_id", "login",
+    "not_before", "issued_at", "jwt_id",
+];
+
+/// an application token type with a CLOSED set of variants (derived `Deserialize`, no catch-all): a `token_type` outside the
+/// set cannot be represented, so a response carrying one must be REFUSED, never reported with the member silently absent
+#[derive(Clone, Debug, PartialEq, serde::Serialize, serde::Deserialize)]
+#[serde(rename_all = "lowercase")]
+pub enum ClosedTokenType {
+    Bearer,
+    Mac,
+}
+impl oauth2::TokenType for ClosedTokenType {}
+
+/// `PkceCodeChallenge::from_code_verifier_plain`. In the build WITHOUT the library's `pkce-plain` feature the function does not
+/// exist; the stand-in is what an application then has: a challenge obtained through serde (`code_challenge_method: "plain"`),
+/// refusing illegal lengths like the real one.
+#[cfg(feature = "optional-lib-features")]
+pub fn plain_challenge(v: &oauth2::PkceCodeVerifier) -> oauth2::PkceCodeChallenge {
+    oauth2::PkceCodeChallenge::from_code_verifier_plain(v)
+}
+#[cfg(not(feature = "optional-lib-features"))]
+pub fn plain_challenge(v: &oauth2::PkceCodeVerifier) -> oauth2::PkceCodeChallenge {
+    assert!((43..=128).contains(&v.secret().len()));
+    serde_json::from_value(serde_json::json!({"code_challenge": v.secret(), "code_challenge_method": "plain"})).unwrap()
+}
+#[cfg(feature = "optional-lib-features")]
+pub fn new_random_plain() -> (oauth2::PkceCodeChallenge, oauth2::PkceCodeVerifier) {
+    oauth2::PkceCodeChallenge::new_random_plain()
+}
+#[cfg(not(feature = "optional-lib-features"))]
+pub fn new_random_plain() -> (oauth2::PkceCodeChallenge, oauth2::PkceCodeVerifier) {
+    let (_, v) = oauth2::PkceCodeChallenge::new_random_sha256();
+    (plain_challenge(&v), v)
+}
